@@ -86,3 +86,36 @@ func (nd *KVNode) VerifRestoreSnapshotMeta(data []byte) error {
 	nd.remoteSyncedStates.RestoreStates(si.RemoteSyncedStates)
 	return nil
 }
+
+// VerifNodeRockDB exposes the store of a running KVNode (physical dumps in C11/C15).
+func VerifNodeRockDB(nd *KVNode) *rockredis.RockDB {
+	if nd.store == nil {
+		return nil
+	}
+	return nd.store.RockDB
+}
+
+// ---- routing seam (C15) ------------------------------------------------------------------
+
+// VerifNewRouter builds a NamespaceMgr that only knows the metas and (stub, ready) partition
+// nodes of one namespace, so that the real GetNamespaceNodeWithPrimaryKey can be asked for
+// every partition count.
+func VerifNewRouter(base string, parts int) *NamespaceMgr {
+	nsm := &NamespaceMgr{kvNodes: map[string]*NamespaceNode{}, nsMetas: map[string]*NamespaceMeta{}, groups: map[uint64]string{}}
+	nsm.nsMetas[base] = &NamespaceMeta{PartitionNum: parts}
+	for i := 0; i < parts; i++ {
+		name := common.GetNsDesp(base, i)
+		nsm.kvNodes[name] = &NamespaceNode{conf: &NamespaceConfig{Name: name, BaseName: base, PartitionNum: parts}, ready: 1}
+	}
+	return nsm
+}
+
+// VerifRoute: the partition the server routes a primary key ("table:key") to, or an error.
+func (nsm *NamespaceMgr) VerifRoute(base string, pk []byte) (int, error) {
+	n, err := nsm.GetNamespaceNodeWithPrimaryKey(base, pk)
+	if err != nil {
+		return -1, err
+	}
+	_, pid := common.GetNamespaceAndPartition(n.FullName())
+	return pid, nil
+}
